@@ -3,6 +3,7 @@ import Driver.C16
 import Driver.C01
 import Driver.C06
 import Driver.C12
+import Driver.C13
 import Driver.C08
 import Driver.C18
 import Driver.C09
@@ -40,6 +41,7 @@ def dispatch (prop : String) (c obs : String) : String × String × Bool :=
   | "C01" => C01.run c obs
   | "C04" => C01.run c obs
   | "C12" => C12.run c obs
+  | "C13" => C13.run c obs
   | "C20e2e" => C12.run c obs
   | "C06" => C06.run c obs
   | "C06sev" => let m := C06.runSev c; (m, if m == obs then "ok" else "severity-differs-from-the-classifier-model", m == obs)
